@@ -6,6 +6,8 @@ pub const D_RETURN: u8 = 0;
 pub const D_CONTINUE: u8 = 1;
 pub const D_RESET_CONTINUE: u8 = 2;
 pub const D_ERR: u8 = 250;
+/// `reset_match()` and then `return_` in the same action (the token's span is empty)
+pub const D_RESET_RETURN: u8 = 251;
 pub const D_DEFAULT: u8 = 255;
 pub fn d_switch(k: usize) -> u8 {
     3 + 2 * k as u8
@@ -20,6 +22,7 @@ pub fn show_decision(d: u8) -> String {
         D_CONTINUE => "continue".into(),
         D_RESET_CONTINUE => "reset+continue".into(),
         D_ERR => "err".into(),
+        D_RESET_RETURN => "reset+return".into(),
         D_DEFAULT => "default".into(),
         d if d >= 3 && d < 200 && d % 2 == 1 => format!("switch({})", (d - 3) / 2),
         d if d >= 4 && d < 200 => format!("switch_and_return({})", (d - 4) / 2),
